@@ -20,7 +20,7 @@ sends the chunk and retries the same item (the item iterator is not advanced bef
 the item read, so a payload that did not fit is retried in the next chunk; (e) every IM buffer a report is built in is resized to a constant
 not above MAX_EXCHANGE_TX_BUF_SIZE (a chunk that one exchange message cannot carry is never delivered).
 """
-CLAUSES = ['a: trailer byte bound <= reserve', 'b: only the last chunk ends the interaction', 'c: rewind on overflow, retry the same item; the event scan stops at the first event that does not fit', 'd: list index discipline', 'e: report buffers sized to one exchange message']
+CLAUSES = ['a: trailer byte bound <= reserve', 'b: only the last chunk ends the interaction', 'c: rewind on overflow, retry the same item; the event scan stops at the first event that does not fit', 'd: list index discipline', 'e: report buffers sized to one exchange message', 'f: a subscription report covers exactly the events it commits']
 NOT_DECIDED = ['concatenation of chunks equals the one-shot expansion', 'element boundaries of handler-produced lists', 'size arithmetic for arbitrary values']
 MIN_OBLIGATIONS = {'q': 20, 'd': 20, 'r': 20}
 
@@ -216,6 +216,12 @@ def check(R):
     # ---- e --------------------------------------------------------------------
     with R.clause('e'):
         clause_e(R)
+
+    # ---- f --------------------------------------------------------------------
+    with R.clause('f'):
+        # events exactly once across the chunks of a priming and the first regular report (shared with C13-e)
+        from C13 import event_range_rule
+        event_range_rule(R)
 
 
 def clause_e(R):
